@@ -1675,3 +1675,112 @@ func c15LenOfMake(v ssa.Value) (*ssa.MakeSlice, bool) {
 	ms, ok := stripPtr(cl.Call.Args[0]).(*ssa.MakeSlice)
 	return ms, ok
 }
+
+// gobListsUntouched: see rule C15.13 (seed r5 C15/m3: Trial.Decode sorted the restored generations by execution
+// time, which permutes them whenever the recorded times are not monotone in the order written).
+func (c *c15) gobListsUntouched() {
+	p, r := c.p, c.r
+	n := 0
+	for _, name := range []string{"Experiment.Encode", "Experiment.Decode", "Trial.Encode", "Trial.Decode", "Generation.Encode", "Generation.Decode", "encodeOrganism", "decodeOrganism"} {
+		fn := p.Func(PkgE, name)
+		r.Fn(FuncName(fn))
+		// values that are (views of) a slice-typed field of a repository struct loaded in this function
+		isListLoad := func(v ssa.Value) bool {
+			ld, ok := v.(*ssa.UnOp)
+			if !ok || ld.Op != token.MUL {
+				return false
+			}
+			if _, ok := ld.X.(*ssa.FieldAddr); !ok {
+				return false
+			}
+			_, isSlice := ld.Type().Underlying().(*types.Slice)
+			return isSlice
+		}
+		var view func(v ssa.Value, d int) bool
+		view = func(v ssa.Value, d int) bool {
+			if d > 6 {
+				return false
+			}
+			if isListLoad(v) {
+				return true
+			}
+			switch x := v.(type) {
+			case *ssa.ChangeType:
+				return view(x.X, d+1)
+			case *ssa.Convert:
+				return view(x.X, d+1)
+			case *ssa.MakeInterface:
+				return view(x.X, d+1)
+			case *ssa.ChangeInterface:
+				return view(x.X, d+1)
+			case *ssa.Slice:
+				return view(x.X, d+1)
+			case *ssa.Phi:
+				for _, e := range x.Edges {
+					if view(e, d+1) {
+						return true
+					}
+				}
+			case *ssa.Call:
+				// sort.Reverse(x), sort.Sort(byX(list)) ...: a wrapper built from the list is still the list
+				if cal := x.Call.StaticCallee(); cal != nil && cal.Pkg != nil && !strings.HasPrefix(cal.Pkg.Pkg.Path(), Mod) {
+					for _, a := range x.Call.Args {
+						if view(a, d+1) {
+							return true
+						}
+					}
+				}
+			}
+			return false
+		}
+		bad := ""
+		var badPos token.Pos
+		Instrs(fn, func(_ *ssa.BasicBlock, _ int, in ssa.Instruction) {
+			ci, ok := in.(ssa.CallInstruction)
+			if !ok {
+				return
+			}
+			com := ci.Common()
+			if _, isB := com.Value.(*ssa.Builtin); isB {
+				return
+			}
+			external := false
+			if cal := com.StaticCallee(); cal != nil {
+				external = cal.Pkg != nil && !strings.HasPrefix(cal.Pkg.Pkg.Path(), Mod) || cal.Pkg == nil && cal.Object() != nil && cal.Object().Pkg() != nil && !strings.HasPrefix(cal.Object().Pkg().Path(), Mod)
+			} else if com.IsInvoke() {
+				external = false
+			}
+			if !external {
+				return
+			}
+			cn, _ := calleeName(com)
+			// library functions that rearrange or rewrite the list they are given; readers (reflect.ValueOf for
+			// EncodeValue, the gob operations themselves, sort.IsSorted, slices.Contains ...) are not among them
+			rewrites := false
+			for _, pre := range []string{"sort.Sort", "sort.Stable", "sort.Slice", "sort.SliceStable", "sort.Ints", "sort.Float64s", "sort.Strings",
+				"slices.Sort", "slices.SortFunc", "slices.SortStableFunc", "slices.Reverse", "slices.Compact", "slices.CompactFunc", "slices.Delete", "slices.DeleteFunc", "slices.Insert", "slices.Replace",
+				"rand.Shuffle"} {
+				if cn == pre {
+					rewrites = true
+				}
+			}
+			if !rewrites {
+				return
+			}
+			for _, a := range com.Args {
+				if view(a, 0) {
+					n++
+					if bad == "" {
+						bad, badPos = cn, in.Pos()
+					}
+				}
+			}
+		})
+		if bad != "" {
+			r.Bad(name+".lists-as-decoded", p.Pos(badPos), name+" hands a list field of the record to "+bad+": the list is rearranged (or otherwise rewritten) by code outside the codec, so what is read back is not what was written in the order it was written")
+		} else {
+			r.OK(name+".lists-as-decoded", p.Pos(fn.Pos()), "no list field of the record is handed to code outside the repository")
+		}
+	}
+	_ = n
+}
